@@ -4,7 +4,7 @@ import os
 import sys
 import z3
 sys.path.insert(0, os.path.dirname(os.path.dirname(os.path.abspath(__file__))))
-from props.common import witnesses_for, failure_name, main, Run, run_child, ALL_SIDECARS  # noqa: E402
+from props.common import witnesses_for, failure_name, main, Run, run_child, ALL_SIDECARS, bounded_companion  # noqa: E402
 from props.opcodes import opcode_contracts, frame_contracts  # noqa: E402
 from props.analyses import analysis_contracts  # noqa: E402
 from props.c09 import STATE_FNS, RUNTIME_FNS, trace_back_edge, trace_exit  # noqa: E402
@@ -170,6 +170,8 @@ def make_replayer(run):
 def build(run: Run):
     eng = run.eng
     run.replayers.append(make_replayer(run))
+    bounded_companion(run, "C13", "determinism_diff.py", ["--two-process"], what="replay/determinism_diff.py: every corpus program asked twice, in another order, re-parsed, read at "
+                      "a non-zero offset, and in a second process (other hash seed, opposite order)")
     scans(run)
     # (a) frames of the read-only queries
     run.verify("fickle.Pickled.ast", "fickle.Pickled.properties", "fickle.Pickled.has_import", "fickle.Pickled.has_call",
